@@ -111,8 +111,11 @@ def real_pairs(job):
     c, t = real_inputs(job)
     pairs = []
 
-    def z_of(c2, t2):
-        Food.conversions.set_nutrition_requirements(c2["KCALS_DAILY"], c2["FAT_DAILY"], c2["PROTEIN_DAILY"], False, False, c2["POP"])
+    def z_of(c2, t2, pop_in_force=None):
+        # the process-wide unit-conversion settings in force while solving: those of the instance itself, or (pop_in_force)
+        # those some other run left behind -- the optimum must be a function of (consts, time_consts) alone
+        Food.conversions.set_nutrition_requirements(c2["KCALS_DAILY"], c2["FAT_DAILY"], c2["PROTEIN_DAILY"], False, False,
+                                                    c2["POP"] if pop_in_force is None else pop_in_force)
         try:
             return solve(c2, t2)
         except BaseException:
@@ -171,6 +174,10 @@ def real_pairs(job):
     for k in (2.0, 0.5):
         c2, t2 = scaled(c, t, k)
         pairs.append(dict(kind="scale", what="x%g" % k, z0=z0, z1=z_of(c2, t2)))
+        # the same scaled inputs solved while the settings of the unscaled run are still in force
+        pairs.append(dict(kind="scale", what="x%g (settings of the unscaled run in force)" % k, z0=z0, z1=z_of(c2, t2, pop_in_force=c["POP"])))
+    pairs.append(dict(kind="scale", what="x1 (settings of a 7.8e9 world run in force)", z0=z0,
+                      z1=z_of(copy.deepcopy(c), copy.deepcopy(t), pop_in_force=7.8e9)))
     return pairs
 
 
